@@ -298,6 +298,11 @@ def case_history(case):
                             src = Path(str(res.source_path))
                             if latest.name not in src.as_posix().split("/"):
                                 vs.append(V("load-latest-result-loaded-wrong-run", name=nm, source=str(src), want=latest.name, history=hist))
+                            # like get_latest_result_path, the latest-loader ignores a run specifier in the name it is given
+                            res = project.load_latest_result(run_name_ok(nm, 0))
+                            src = Path(str(res.source_path))
+                            if latest.name not in src.as_posix().split("/"):
+                                vs.append(V("load-latest-result-loaded-wrong-run", name=run_name_ok(nm, 0), source=str(src), want=latest.name, history=hist))
                             first = project.load_result(run_name_ok(nm, 0))
                             if run_name_ok(nm, 0) not in Path(str(first.source_path)).as_posix().split("/"):
                                 vs.append(V("load-result-loaded-wrong-run", name=nm, history=hist))
